@@ -44,7 +44,8 @@ def row_tokens(arr) -> list[str]:
 
 class PairPot(Calculator):
     """smooth pair potential + weak wells; style 'caching' = standard ASE caching, 'stateless' = recomputes on every request,
-    'internal' = keeps a per-atom internal table that must match the atom count (like a neighbour list)"""
+    'internal' = keeps a per-atom internal table that must match the atom count (like a neighbour list),
+    'inplace' = standard caching, but array results are written into one persistent buffer (as ASE's EMT does with its forces)"""
 
     implemented_properties = ["energy", "forces", "stress"]
 
@@ -53,6 +54,7 @@ class PairPot(Calculator):
         self.style = style
         self.evaluations = 0
         self.table = None
+        self._fbuf = None
 
     def energy_of(self, atoms):
         pos = atoms.positions
@@ -74,7 +76,13 @@ class PairPot(Calculator):
                 self.table = np.zeros(len(self.atoms))
             if len(self.table) != len(self.atoms):
                 raise RuntimeError("internal per-atom table does not match the atoms (stale calculator state)")
-        self.results = {"energy": self.energy_of(self.atoms), "forces": np.zeros((len(self.atoms), 3)), "stress": np.zeros(6)}
+        forces = -0.04 * self.atoms.positions / (1 + len(self.atoms))       # (gradient of the well term: a deterministic function of the configuration)
+        if self.style == "inplace":
+            if self._fbuf is None or self._fbuf.shape != forces.shape:
+                self._fbuf = np.zeros_like(forces)
+            self._fbuf[:] = forces
+            forces = self._fbuf
+        self.results = {"energy": self.energy_of(self.atoms), "forces": forces, "stress": np.zeros(6)}
 
     def get_property(self, name, atoms=None, allow_calculation=True):
         if self.style == "stateless":
@@ -266,7 +274,9 @@ class Sim:
         fresh_atoms = atoms.copy()
         fresh_atoms.calc = LennardJones(sigma=1.5, epsilon=0.01, rc=4.0) if self.p.get("calc") == "lj" else PairPot("caching")
         fresh = float(fresh_atoms.get_potential_energy())
-        return {"reported": reported, "fresh": fresh, "reference": float(ctx.last_potential_energy), "probe_cost": None if ev0 is None else ev1 - ev0,
+        f_rep, f_fresh = np.array(atoms.get_forces(), dtype=float), np.array(fresh_atoms.get_forces(), dtype=float)
+        forces_ok = bool(f_rep.shape == f_fresh.shape and np.allclose(f_rep, f_fresh, rtol=1e-9, atol=1e-12))
+        return {"forces_ok": forces_ok, "forces_max_error": float(np.max(np.abs(f_rep - f_fresh))) if f_rep.shape == f_fresh.shape and f_rep.size else 0.0, "reported": reported, "fresh": fresh, "reference": float(ctx.last_potential_energy), "probe_cost": None if ev0 is None else ev1 - ev0,
                 "evaluations": ev1, "last_pos_ok": bool(np.array_equal(ctx.last_positions, atoms.positions)),
                 "last_cell_ok": bool(np.array_equal(np.asarray(ctx.last_cell), atoms.cell.array)) if hasattr(ctx, "last_cell") else True,
                 "calc_atoms_ok": bool(atoms.calc.atoms is not None and len(atoms.calc.atoms) == len(atoms) and np.array_equal(atoms.calc.atoms.positions, atoms.positions)
